@@ -126,18 +126,19 @@ func FormatNumber(value float64, picture string, format DecimalFormat) (string, 
 		return "", err
 	}
 
-	if math.IsNaN(value) {
-		return vars.Prefix + format.NaN + vars.Suffix, nil
-	}
-	if math.IsInf(value, 0) {
-		return vars.Prefix + format.Infinity + vars.Suffix, nil
-	}
-
 	switch vars.NumberType {
 	case typePercent:
 		value *= 100
 	case typePermille:
 		value *= 1000
+	}
+
+	// The scaled value can be infinite when the number is not.
+	if math.IsNaN(value) {
+		return vars.Prefix + format.NaN + vars.Suffix, nil
+	}
+	if math.IsInf(value, 0) {
+		return vars.Prefix + format.Infinity + vars.Suffix, nil
 	}
 
 	exponent := 0
